@@ -29,7 +29,7 @@ use std::time::{Duration, Instant};
 pub static META: PropMeta = PropMeta {
     id: "C10",
     level: "exploration",
-    rule: "cases: (a) sched: 1..4 scripted futures scheduled on an Executor inserted in a loop thread that dispatches with zero timeout (optionally scheduling one more future from the callback, optionally removing and dropping the executor after dispatch k), or a scripted stream in a StreamSource; 1..3 actor threads with programs over wake(task) / clone+wake(task) / complete+wake(task) (stream: push+wake / end+wake); the schedule over all executor, ping and harness yield sites (incl. one in the middle of every poll) is generated. oracle on the controller's logical clock: every scheduled future is polled; a poll of the task starts after every wake that began while it was pending and the executor was alive; all polls and future drops happen on the loop thread; each Ready(v) gives exactly one callback with v and no callback exists without a completion; after the executor is dropped every future has been dropped exactly once (checked before the Scheduler goes) and schedule() returns ExecutorDestroyed; stream: items delivered == items pushed in order, one None after end, then the slot is free. (d) hist: single-thread histories through the history machine with Executor sources (schedule scripted futures that stay pending 0..3 times, optionally waking themselves; wake from outside; schedule and wake from callbacks; disable/enable/remove/slot reuse of the executor, also from other callbacks): a runnable task is polled by the next Ok dispatch of an enabled executor, never while disabled or after removal, a completed task's value is delivered exactly once in the same dispatch, every future is dropped exactly once with its executor, schedule() afterwards returns ExecutorDestroyed. (c) free: 1..4 scripted futures, 2..3 free-running waker threads released together by a spin barrier (real concurrency, for races whose window holds no yield site) with programs over wake / clone+wake / complete+wake against the dispatching loop; oracle on CLOCK_MONOTONIC instants and end state: a completed+woken task delivers its value exactly once, every wake of a pending task is followed by a poll that started after it began, polls and drops only on the loop thread, every future dropped exactly once with the executor, ExecutorDestroyed afterwards. (b) batch: n ready tasks, n in {0,1,1023,1024,1025,2100} and random, complete over consecutive dispatches without external wake-up; futures scheduled from the callback and from futures run. non-trivial (sched): an actor's wake sites interleave with the executor's flag-clear / dequeue sites of a dispatch (actor step between EX_CLEAR_PRE and the end of that dispatch), or a wake lands in the middle of a poll, or the executor is dropped while a wake is in flight; (batch): n >= 1024; distinct by case fingerprint",
+    rule: "cases: (a) sched: 1..4 scripted futures scheduled on an Executor inserted in a loop thread that dispatches with zero timeout (optionally scheduling one more future from the callback, optionally removing and dropping the executor after dispatch k), or a scripted stream in a StreamSource; 1..3 actor threads with programs over wake(task) / clone+wake(task) / complete+wake(task) (stream: push+wake / end+wake); the schedule over all executor, ping and harness yield sites (incl. one in the middle of every poll) is generated. oracle on the controller's logical clock: every scheduled future is polled; a poll of the task starts after every wake that began while it was pending and the executor was alive; all polls and future drops happen on the loop thread; each Ready(v) gives exactly one callback with v and no callback exists without a completion; after the executor is dropped every future has been dropped exactly once (checked before the Scheduler goes) and schedule() returns ExecutorDestroyed; stream: items delivered == items pushed in order, one None after end, then the slot is free. (e) stream bursts: 0/1/2/1023/1024/1025/2048/2049/3000 and random numbers of items ready at once in a StreamSource (finite ready stream; burst into a futures channel whose sender is then dropped or kept quiet): all delivered in order with no further wake-up, one None when the stream ended, then the slot is free. (d) hist: single-thread histories through the history machine with Executor sources (schedule scripted futures that stay pending 0..3 times, optionally waking themselves; wake from outside; schedule and wake from callbacks; disable/enable/remove/slot reuse of the executor, also from other callbacks): a runnable task is polled by the next Ok dispatch of an enabled executor, never while disabled or after removal, a completed task's value is delivered exactly once in the same dispatch, every future is dropped exactly once with its executor, schedule() afterwards returns ExecutorDestroyed. (c) free: 1..4 scripted futures, 2..3 free-running waker threads released together by a spin barrier (real concurrency, for races whose window holds no yield site) with programs over wake / clone+wake / complete+wake against the dispatching loop; oracle on CLOCK_MONOTONIC instants and end state: a completed+woken task delivers its value exactly once, every wake of a pending task is followed by a poll that started after it began, polls and drops only on the loop thread, every future dropped exactly once with the executor, ExecutorDestroyed afterwards. (b) batch: n ready tasks, n in {0,1,1023,1024,1025,2100} and random, complete over consecutive dispatches without external wake-up; futures scheduled from the callback and from futures run. non-trivial (sched): an actor's wake sites interleave with the executor's flag-clear / dequeue sites of a dispatch (actor step between EX_CLEAR_PRE and the end of that dispatch), or a wake lands in the middle of a poll, or the executor is dropped while a wake is in flight; (batch): n >= 1024; distinct by case fingerprint",
     assumptions: &[
         "interleavings at yield-site granularity on x86-TSO with the real atomics, real mpsc queue and real eventfd",
         "async-task's internal state machine is exercised through calloop only; its own atomics have no yield sites",
@@ -699,6 +699,82 @@ fn dfs(ctx: &CheckCtx, base: Case, max: u64) -> Option<Found> {
     found
 }
 
+// ------------------------------------------------------------------------------------------ stream bursts
+
+/// `n` items ready at once in a StreamSource (a finite ready stream, or a burst pushed into a futures channel whose
+/// sender then stays quiet or is dropped): every item is delivered in order without any further wake-up.
+#[derive(Serialize, Deserialize, Debug, Clone, Hash)]
+pub struct StreamBurst {
+    pub n: u32,
+    /// 0 = stream::iter (ends by itself), 1 = unbounded channel, sender dropped after the burst, 2 = sender kept
+    pub how: u8,
+}
+
+pub fn run_stream_burst(c: &StreamBurst) -> CaseOutcome {
+    let mut info = CaseInfo { fingerprint: fingerprint(c), ..CaseInfo::default() };
+    info.classes.push("stream_burst");
+    info.nontrivial = c.n > 1024;
+    let n = c.n.min(5000);
+    #[derive(Default)]
+    struct Got {
+        items: Vec<u32>,
+        ends: u32,
+        after_end: u32,
+    }
+    let mut el: EventLoop<'static, Got> = EventLoop::try_new().expect("event loop");
+    let cb = |ev: Option<u32>, _: &mut (), g: &mut Got| match ev {
+        Some(v) => {
+            if g.ends > 0 {
+                g.after_end += 1;
+            }
+            g.items.push(v)
+        }
+        None => g.ends += 1,
+    };
+    let mut keep_tx = None;
+    match c.how % 3 {
+        0 => {
+            let st = futures::stream::iter(0..n);
+            el.handle().insert_source(StreamSource::new(st).expect("StreamSource"), cb).expect("insert stream");
+        }
+        how => {
+            let (tx, rx) = futures::channel::mpsc::unbounded::<u32>();
+            el.handle().insert_source(StreamSource::new(rx).expect("StreamSource"), cb).expect("insert stream");
+            // first poll (stream pending), then the burst arrives between two dispatches
+            let mut g0 = Got::default();
+            el.dispatch(Some(Duration::ZERO), &mut g0).expect("dispatch");
+            for i in 0..n {
+                tx.unbounded_send(i).expect("send");
+            }
+            if how == 1 {
+                drop(tx);
+            } else {
+                keep_tx = Some(tx);
+            }
+        }
+    }
+    let mut got = Got::default();
+    let rounds = n / 1024 + 4;
+    for _ in 0..rounds {
+        el.dispatch(Some(Duration::ZERO), &mut got).expect("dispatch");
+    }
+    let occupied = el.handle().verif_stats().occupied_slots;
+    let ends_expected = if c.how % 3 == 2 { 0 } else { 1 };
+    let mut viol = None;
+    if got.items.len() as u32 != n || got.items.iter().enumerate().any(|(i, v)| *v != i as u32) {
+        viol = Some(Violation::new(
+            "C10.stream",
+            format!("{} of {n} ready stream items were delivered (in order: {}) after {rounds} dispatches without any further wake-up (how={})", got.items.len(), got.items.iter().enumerate().all(|(i, v)| *v == i as u32), c.how % 3),
+        ));
+    } else if got.ends != ends_expected || got.after_end > 0 {
+        viol = Some(Violation::new("C10.stream", format!("stream end delivered {} time(s), expected {ends_expected}; {} item(s) after it", got.ends, got.after_end)));
+    } else if occupied != (1 - ends_expected) as usize {
+        viol = Some(Violation::new("C10.stream", format!("loop holds {occupied} sources after the stream {}", if ends_expected == 1 { "ended" } else { "went quiet with its sender alive" })));
+    }
+    drop(keep_tx);
+    (info, viol)
+}
+
 // ------------------------------------------------------------------------------------------ hist
 
 fn hist_profile() -> Vec<(&'static str, Profile, u32, u32)> {
@@ -992,6 +1068,23 @@ pub fn check(ctx: &CheckCtx) -> Option<Found> {
             }
         }
     }
+    if let Some(f) = ctx.run_replays::<StreamBurst, _>("stream_burst", run_stream_burst) {
+        return Some(f);
+    }
+    for n in [0u32, 1, 2, 1023, 1024, 1025, 2048, 2049, 3000] {
+        for how in 0u8..3 {
+            let c = StreamBurst { n, how };
+            let (info, v) = run_stream_burst(&c);
+            ctx.col.record(&info, || serde_json::to_value(&c).unwrap());
+            if let Some(v) = v {
+                return Some(Found { sub: "stream_burst".into(), violation: v, case: serde_json::to_value(&c).unwrap(), replay_path: None });
+            }
+        }
+    }
+    let sb = (0u32..3300, 0u8..3).prop_map(|(n, how)| StreamBurst { n, how });
+    if let Some(f) = ctx.search("stream_burst", sb, t.pick(150, 3000), 8, None, run_stream_burst) {
+        return Some(f);
+    }
     let bs = (0u32..3300, prop_oneof![Just(0u32), 1u32..50], any::<bool>()).prop_map(|(n, nested_every, from_cb)| BatchCase { n, nested_every, from_cb });
     if let Some(f) = ctx.search("batch", bs, t.pick(200, 5000), 8, None, run_batch) {
         return Some(f);
@@ -1013,6 +1106,10 @@ pub fn replay(_ctx: &CheckCtx, sub: &str, case: serde_json::Value) -> Result<Opt
     if sub == "free" {
         let c: FreeCase = serde_json::from_value(case).map_err(|e| e.to_string())?;
         return Ok(run_free(&c).1);
+    }
+    if sub == "stream_burst" {
+        let c: StreamBurst = serde_json::from_value(case).map_err(|e| e.to_string())?;
+        return Ok(run_stream_burst(&c).1);
     }
     if sub == "hist" {
         return hist_replay(&HIST, case);
